@@ -394,7 +394,12 @@ Step1(y, e) ==
   LET y2 == Absorb(y, e)
       vh == IF e.op = "strag" THEN y.h - 1 ELSE y.h
       isVote == e.op \in {"vote", "strag"}
-      newVote == isVote /\ ~HasVoteAt(y, vh, e.r, TOf(e.k), Idx(e.src)) /\ HasVoteAt(y2, vh, e.r, TOf(e.k), Idx(e.src))
+      \* EventVote fires for every vote the vote set ADDS: a first vote of the validator, or a conflicting one for a
+      \* block a peer has claimed (VoteSet.addVote)
+      recorded(z) == IF e.op = "strag" THEN z.cn.lastCommit.votes[e.src] = e.v
+                     ELSE IF z.h = y.h THEN e.r \in z.cn.tracked /\ e.src \in CN!ByFor(VS(z, TOf(e.k), e.r), e.v)
+                     ELSE z.cn.lastCommit.r = e.r /\ e.k = "precommit" /\ z.cn.lastCommit.votes[e.src] = e.v
+      newVote == isVote /\ ~recorded(y) /\ recorded(y2)
       polka == /\ e.op = "vote" /\ e.k = "prevote" /\ y2.h = y.h /\ e.r = RoundOf(y) /\ RoundOf(y2) = e.r
                /\ y.cn.pv[e.r].maj = None /\ y2.cn.pv[e.r].maj \notin {None, Nil} /\ y.cn.validR < e.r
       commitHdr == y2.h = y.h /\ StepOf(y2) = StCommit /\ StepOf(y) # StCommit /\ HdrOf(y2) # HdrOf(y)
